@@ -4265,3 +4265,8 @@ mod tests {
     }
     */
 }
+
+// Verification hook (guard: cfg(kani)): harnesses that need the conductor's private state.
+#[cfg(kani)]
+#[path = "../../verif/kani/conductor.rs"]
+mod verif_kani_conductor;
